@@ -19,7 +19,7 @@ RULE = ('histories as in C08 but with the wide argument domain: empty strings/pa
 ASSUMPTIONS = ['"documented types" = the type hints and docstrings; arguments of other types are only generated where the code documents '
                'a TypeError (operand of +, index, setting, constructor argument)',
                'only syntactically valid regular expressions are generated (re.error for an invalid pattern is outside the claim)',
-               'termination = the call finishes within 3*10^6 + 2*10^4*(len+args) line events inside the library (deterministic, no wall clock)',
+               'termination = the call finishes within 3*10^6 + 2*10^4*(len+args) + 100*(len+1)*min((len+1)*(len(operand)+1), 1600) line events inside the library (deterministic, no wall clock; >= 4x the measured cost of the most expensive legitimate call, replace with every position matching)',
                'the error str raises for the same call is computed on the base text for the str-like methods']
 
 CFG = gen.Cfg(esc=True, odd=0.15, invalid=True, incomplete=True, max_ops=2, max_text=8, rich=True, min_text=2)
@@ -84,6 +84,32 @@ def str_exception(t, fn):
     return None
 
 
+def cap_count(recv, new, cnt):
+    """replace() rebuilds the string once per match (about 25 * len^2 * len(new) line events for an all-matching
+    pattern): with a long receiver and a long replacement the unlimited / huge count is capped so that a legitimate
+    call stays far below the termination bound"""
+    try:
+        m = len(new)
+    except TypeError:
+        return cnt
+    if (len(recv) + 1) * (m + 1) > 1500 and (cnt < 0 or cnt > 3):
+        return 3
+    return cnt
+
+
+def work_bound(recv, op, m_):
+    n = len(recv)
+    argsize = sum(len(str(v)) for v in op.values())
+    big = 0
+    for key in ('new', 'x'):
+        if key in op and isinstance(op[key], dict):
+            try:
+                big = max(big, len(m_.resolve(op[key], recv)))
+            except Exception:
+                pass
+    return 3 * 10 ** 6 + 2 * 10 ** 4 * (n + argsize) + 100 * (n + 1) * min((n + 1) * (big + 1), 1600)
+
+
 def make_call(m, recv, op):
     """Returns (thunk, kind, allowed_extra_exception_types).  kind: 'inplace' | 'value' | 'scalar'."""
     name = op['op']
@@ -94,6 +120,8 @@ def make_call(m, recv, op):
     if not name.startswith('w_'):
         if name == 'index':
             extra.add(IndexError)
+        if name == 'replace':
+            op = dict(op, n=cap_count(recv, res(op['new']), op.get('n', -1)))
         return (lambda: apply_op(recv, op, res)), ('inplace' if is_inplace(recv, op) else 'value'), extra
     if name == 'w_pad':
         meth = op['m']
@@ -130,9 +158,10 @@ def make_call(m, recv, op):
     if name == 'w_replace':
         ip = op['ip'] and mut
         new = res(op['new'])
+        cnt = cap_count(recv, new, op['n'])
         if mut:
-            return (lambda: recv.replace(op['old'], new, op['n'], inplace=ip)), ('inplace' if ip else 'value'), extra
-        return (lambda: recv.replace(op['old'], new, op['n'])), 'value', extra
+            return (lambda: recv.replace(op['old'], new, cnt, inplace=ip)), ('inplace' if ip else 'value'), extra
+        return (lambda: recv.replace(op['old'], new, cnt)), 'value', extra
     if name == 'w_index':
         i = op['i']
         if isinstance(i, (list, tuple)):
@@ -295,8 +324,7 @@ def eval_history(case):
             thunk, kind, extra = make_call(m, recv, op)
         except HarnessError:
             raise
-        argsize = sum(len(str(v)) for v in op.values())
-        limit = 3 * 10 ** 6 + 2 * 10 ** 4 * (len(recv) + argsize)
+        limit = work_bound(recv, op, m)
         try:
             res, events = run_bounded(thunk, limit)
         except StepLimit:
